@@ -1161,14 +1161,40 @@ func work(w *mon.W) {
 		}
 		d.mu.Unlock()
 		w.Count("switched_exchanges", int64(n))
+		// the application takes the switched connections over (Hijack) and keeps them open:
+		// at rest every socket the client dialled and nobody closed is still counted
+		// against MaxConns (idle ones are in the pool, switched ones are held by their
+		// response until it is collected)
+		var taken []network.Conn
 		for _, resp := range keep {
 			if resp.StatusCode() == 101 {
 				if hj, err := resp.Hijack(); err == nil {
-					hj.Close()
+					taken = append(taken, hj)
 				}
 			}
 		}
+		if ps, open := hc.ConnPoolState(), int(atomic.LoadInt32(&d.open)); ps.TotalConnNum < open {
+			c.Violate("conservation", "plans %v: at rest, %d switched connections taken over with Hijack and still open: %d sockets are open, the client counts %d (MaxConns bounds sockets, a switched connection gives its slot back when it is closed)", seq, len(taken), open, ps.TotalConnNum)
+		}
+		for _, hj := range taken {
+			hj.Close()
+		}
+		keep, taken = nil, nil
 		hc.CloseIdleConnections()
+		// the slot of a switched connection comes back when its response is collected: the
+		// count may take a while to reach zero (not judged), but it never goes below zero
+		for i := 0; i < 100; i++ {
+			runtime.GC()
+			if ps := hc.ConnPoolState(); ps.TotalConnNum <= 0 {
+				break
+			}
+			time.Sleep(2 * time.Millisecond)
+		}
+		if ps := hc.ConnPoolState(); ps.TotalConnNum < 0 {
+			c.Violate("conservation", "plans %v: after every connection was closed the client counts %d connections", seq, ps.TotalConnNum)
+		} else if ps.TotalConnNum > 0 {
+			w.Count("switched_slots_not_yet_collected", int64(ps.TotalConnNum))
+		}
 		w.Shape(mon.Hash64("switched", strings.Join(seq, ",")))
 	})
 	// early-close: more concurrent GETs than connections, callers queue for a connection, and
